@@ -5,3 +5,4 @@ open LasModel.Props.C01
 #print axioms C01_roundtrip
 #print axioms C01_header_fields
 #print axioms C01_pure
+#print axioms C01_idempotent
